@@ -105,3 +105,25 @@ func Verif_C07_ccitt_vs_independent() {
 	verifrt.Assert(!exhausted && (rerr == io.EOF || rerr == nil), "independent decoder accepts library output")
 	verifrt.Assert(verifrt.Equal(out, data), "independent decoder reproduces the rows")
 }
+
+// Verif_C08_ccitt_total: the CCITTFax decoder on arbitrary bytes: it
+// returns, does not panic, and the rows it produces stay within MaxRows.
+func Verif_C08_ccitt_total() {
+	verifrt.TerminationBound(200000)
+	n := verifrt.Len("n", 0, 2+verifrt.Tier())
+	body := verifrt.Bytes("body", n)
+	p := &Params{Columns: []int{8, 64}[verifrt.Choice("columns", 2)], K: []int{-1, 0, 2}[verifrt.Choice("k", 3)], MaxRows: 4}
+	if verifrt.Choice("align", 2) == 1 {
+		p.EncodedByteAlign = true
+	}
+	r, err := NewReader(&verifrt.ChunkReader{Data: body, EOF: io.EOF}, p)
+	verifrt.Assert(err == nil, "NewReader succeeds")
+	if err != nil {
+		return
+	}
+	out, rerr, exhausted := verifrt.ReadAll(r, 64, 64)
+	verifrt.Cover("drained")
+	verifrt.Assert(!exhausted, "decoder terminates with an error or EOF")
+	verifrt.Assert(rerr != nil, "an end is reported")
+	verifrt.Assert(len(out) <= 4*((p.Columns+7)/8), "output bounded by MaxRows rows")
+}
